@@ -176,12 +176,72 @@ def state_transfer(rep, repo, mod):
     rep.ob('C06.transfer', 'gpu', ok)
     if not ok:
         rep.violate('C06.transfer', mod, g, 'row moves', 'ppo_to_ppi_gpu must move s[2] -> s[0], time -> s[1], s[8] -> s[2], in that order', node=g)
-    for w in ('ify>=s.shape[1]:return', 'ifx>=s.shape[2]:return', 'ifc_locs[ppi_offset+y]<0:return', 'ifc_locs[ppo_offset+y]<0:return'):
-        ok = w in b
-        rep.ob('C06.transfer', f'gpu: {w}', ok)
+    # which positions does the kernel transfer? evaluated (Engine M) for every small interface: n_io ports and n_st state elements, each
+    # with or without an input / an output slot, every thread (x, y) of a grid that over-covers the array. The CPU method transfers
+    # exactly the rows ppio_s_locs = arange(len(io_nodes), s_len): a port that is both driven and read must keep its assignment.
+    import itertools
+    from kvstatic import minieval
+    launch = mod.func('WaveSimCuda.s_ppo_to_ppi')
+    lcalls = [c for c in find_all(launch, ast.Call) if isinstance(c.func, ast.Subscript) and cz(c.func.value) == 'ppo_to_ppi_gpu']
+    kparams = [x.arg for x in g.args.args]
+    smod, sinit = simops.simops_init(repo)
+    okp = any(cz(st) == 'self.ppio_s_locs=np.arange(len(self.circuit.io_nodes),self.s_len)' for st in ast.walk(sinit) if isinstance(st, ast.Assign))
+    rep.ob('C06.transfer', 'ppio_s_locs = arange(len(io_nodes), s_len)', okp)
+    if not okp:
+        rep.violate('C06.transfer', smod, sinit, 'ppio_s_locs', 'SimOps: ppio_s_locs must be np.arange(len(self.circuit.io_nodes), self.s_len) (the positions of the state elements in s)', node=sinit)
+    bad = None
+    ncases = 0
+    try:
+        if len(lcalls) != 1 or len(lcalls[0].args) != len(kparams):
+            raise ModelError('ppo_to_ppi_gpu launch does not match the kernel parameters')
+        kbody = [st for st in body_no_doc(g) if not (isinstance(st, ast.Assign) and 'cuda.grid' in cz(st))]
+        SLOT = ((True, True), (True, False), (False, True))
+        for n_io in (0, 1, 2):
+            for n_st in (0, 1, 2):
+                n = n_io + n_st
+                for slots in itertools.product(SLOT, repeat=n):
+                    ppi_off, ppo_off = 10, 20
+                    c_locs = [-1] * 40
+                    for y, (i_ok, o_ok) in enumerate(slots):
+                        c_locs[ppi_off + y] = 100 + y if i_ok else -1
+                        c_locs[ppo_off + y] = 200 + y if o_ok else -1
+                    me = minieval.NS(s=minieval.Rec(), c_locs=c_locs, ppi_offset=ppi_off, ppo_offset=ppo_off, sims=2, s_len=n,
+                                     circuit=minieval.NS(io_nodes=[None] * n_io), ppio_s_locs=list(range(n_io, n)))
+                    me.s.shape = (11, n, 2)
+                    argv = [minieval.ev(a, {'self': me, 'time': 0.5}) for a in lcalls[0].args]
+                    moved = set()
+                    for y in range(n + 2):
+                        for x in range(3):
+                            ncases += 1
+                            rec = minieval.Rec()
+                            rec.shape = (11, n, 2)
+                            env = dict(zip(kparams, argv))
+                            env[kparams[0]] = rec
+                            env.update(x=x, y=y)
+                            try:
+                                minieval.run(kbody, env)
+                            except minieval.Returned:
+                                pass
+                            if rec:
+                                moved.add((y, x))
+                    want = {(y, x) for y in range(n_io, n) if slots[y] == (True, True) for x in range(2)}
+                    # a state element without one of the two slots: either behaviour leaves the port-level results alone
+                    free = {(y, x) for y in range(n_io, n) if slots[y] != (True, True) for x in range(2)}
+                    if (moved - free) != want and bad is None:
+                        bad = (n_io, n_st, slots, sorted(moved), sorted(want))
+        ok = bad is None
+        rep.ob('C06.transfer', f'gpu: transferred positions = state elements with both slots, threads inside the array ({ncases} thread cases evaluated)', ok, evals=ncases)
         if not ok:
-            rep.violate('C06.transfer', mod, g, w, f'ppo_to_ppi_gpu: `{w}` required (only state elements, which have both an input and an output slot, are transferred)', node=g)
-    for q, kern, args in (('WaveSimCuda.s_ppo_to_ppi', 'ppo_to_ppi_gpu', ['self.s', 'self.c_locs', 'time', 'self.ppi_offset', 'self.ppo_offset']),
+            rep.violate('C06.transfer', mod, g, 'transferred positions', f'ppo_to_ppi_gpu: with {bad[0]} port(s) and {bad[1]} state element(s), slots (input, output) = {list(bad[2])}, '
+                        f'the kernel transfers threads (y, x) = {bad[3]} but WaveSim.s_ppo_to_ppi transfers {bad[4]}: the CPU and the GPU path differ for a port that is both driven and read, '
+                        f'or a thread outside the array writes', node=g)
+    except ModelError:
+        for w in ('ify>=s.shape[1]:return', 'ifx>=s.shape[2]:return', 'ifc_locs[ppi_offset+y]<0:return', 'ifc_locs[ppo_offset+y]<0:return', 'ify<ppio_start:return'):
+            ok = w in b
+            rep.ob('C06.transfer', f'gpu: {w}', ok)
+            if not ok:
+                rep.violate('C06.transfer', mod, g, w, f'ppo_to_ppi_gpu: `{w}` required (only state elements, which have both an input and an output slot, are transferred)', node=g)
+    for q, kern, args in (('WaveSimCuda.s_ppo_to_ppi', 'ppo_to_ppi_gpu', ['self.s', 'self.c_locs', 'time', 'self.ppi_offset', 'self.ppo_offset', 'len(self.circuit.io_nodes)']),
                           ('WaveSimCuda.s_to_c', 'wave_assign_gpu', ['self.c', 'self.s', 'self.c_locs', 'self.ppi_offset'])):
         h = mod.func(q)
         calls = [c for c in find_all(h, ast.Call) if isinstance(c.func, ast.Subscript) and cz(c.func.value) == kern]
